@@ -127,7 +127,10 @@ pub fn run(ctx: &Ctx) -> i32 {
             }
         }
     }
-    for k in -130i64..=130 {
+    // every integer of up to four (thorough: five) hexadecimal digits: digit patterns that happen to look like
+    // another notation (3e8, 1e5, ...) are not boundary values of any representation
+    let small = ctx.tier.pick(70_000i64, 1_100_000i64);
+    for k in -small..=small {
         extra.push(big(k));
     }
     let n_extra = extra.len() as u64;
@@ -143,16 +146,18 @@ pub fn run(ctx: &Ctx) -> i32 {
         Acc::merge,
         acc_zero,
     );
-    // small rationals p/q, |p| <= 12, q <= 12
+    // small rationals p/q, |p| <= 1100, q in 1..33 or 480..500
     let a3 = par_fold(
-        25 * 12 * 4,
+        2201 * 54 * 4,
         32,
         || None::<Vm>,
         |vm, acc, i| {
             let radix = [2u32, 8, 10, 16][(i % 4) as usize];
             let j = i / 4;
-            let p = (j % 25) as i32 - 12;
-            let q = (j / 25) as i32 + 1;
+            let p = (j % 2201) as i32 - 1100;
+            // denominators 1..33 and 480..500 (hexadecimal spellings of the form digit-e-digit)
+            let q = (j / 2201) as i32 + 1;
+            let q = if q <= 33 { q } else { 480 + (q - 34) };
             let r = num::Rational32::new(p, q);
             if r.is_integer() {
                 return;
@@ -192,7 +197,7 @@ pub fn run(ctx: &Ctx) -> i32 {
         acc = Acc::merge(acc, a);
     }
     rep.rule = format!(
-        "(string->number (number->string z r) r) must be a number with z's value and exactness, and eval_text of the printed spelling with the #b/#o/#d/#x prefix (and bare for r = 10) must denote the same value. z x r enumerated: the {} exact palette numbers in every representation x {{2,8,10,16}}; {} integers k*2^e+d and -130..130 x 4 radices; all reduced p/q with |p| <= 12, q <= 12 x 4 radices; finite doubles at radix 10: every {}-th of the {} structured doubles (every exponent field x 24 mantissa patterns x 2 signs), {} special values, the C09 float palette. Non-trivial = the whole inverse law held for that (z, r); cases are distinct (value, representation, radix) triples.",
+        "(string->number (number->string z r) r) must be a number with z's value and exactness, and eval_text of the printed spelling with the #b/#o/#d/#x prefix (and bare for r = 10) must denote the same value. z x r enumerated: the {} exact palette numbers in every representation x {{2,8,10,16}}; {} integers (k*2^e+d, and every integer of magnitude <= 70 000 - thorough: 1 100 000, all five-hex-digit numbers) x 4 radices; all reduced p/q with |p| <= 1100, q in 1..33 or 480..500 x 4 radices; finite doubles at radix 10: every {}-th of the {} structured doubles (every exponent field x 24 mantissa patterns x 2 signs), {} special values, the C09 float palette. Non-trivial = the whole inverse law held for that (z, r); cases are distinct (value, representation, radix) triples.",
         n_exact, n_extra, step, nd, specials.len()
     );
     rep.assumptions.push("NaN and infinities are outside the property".into());
